@@ -6,6 +6,9 @@ T3  typing obligations per construct: the arm calls the listed checkers on every
 T4  binding patterns (let, for, for-join) are shown irrefutable before the statement is accepted
 T5  recursion guard: tested before, set around, cleared after the body is checked
 T6  scoping: pushes and pops balance on accepting paths; every match clause is checked in its own scope
+T9  const expressions are checked against the consts defined before them (a local map filled in source order), never against the
+    program's complete definition map (the compiler resolves consts in source order)
+T8  after a `!=` comparison found two types to differ, every path to acceptance constructs a type error or calls a rejecting checker
 T7  check_type accepts only on the equal edge of its comparison; unify accepts only after `==` or after testing both operand types
 """
 import re
@@ -671,5 +674,89 @@ def rule_t7(ctx):
     return res
 
 
+REJECTING = ("check_type", "unify", "check_or_constrain_unsigned", "check_or_constrain_signed", "expect_num_type", "expect_bool_or_num_type",
+             "expect_signed_num_type", "expect_array_type", "expect_tuple_type", "expect_struct_type", "expect_enum_type")
+
+
+def rule_t8(ctx):
+    """Where the checker finds two types to differ, it either reports an error or hands the pair to a checker that can reject."""
+    from . import C02
+    res = RuleResult("T8", "a detected type difference leads to an error or to a checker that can reject, never silently to acceptance")
+    n = 0
+    for f in checker_fns(ctx):
+        if mir.last_seg(f["id"]) not in ("type_check", "check_const_expr") or f["kind"] == "closure":
+            continue
+        body = ctx.body(f["id"])
+        oks = ok_exits(body)
+        if not oks:
+            continue
+        rej = set()
+        for b in range(body.n):
+            t = body.term(b)
+            if t and t["k"] == "call" and not body.blocks[b]["cleanup"]:
+                seg = mir.last_seg(mir.callee(t) or "")
+                if seg in REJECTING or (seg == "new" and "TypeError" in (mir.callee(t) or "")):
+                    rej.add(b)
+            for st in body.blocks[b]["stmts"]:
+                if st["k"] == "assign" and st["rv"]["k"] == "aggregate" and st["rv"].get("adt") in ("check::TypeErrorEnum", "check::TypeError"):
+                    rej.add(b)
+        for b, t in body.calls():
+            seg = mir.last_seg(mir.callee(t) or "")
+            if seg != "ne" or len(t["args"]) != 2 or body.blocks[b]["cleanup"]:
+                continue
+            if not all(a["k"] in ("copy", "move") and a["place"]["ty"].lstrip("&").startswith("ast::Type") for a in t["args"]):
+                continue
+            n += 1
+            differ = C02._some_edges(body, t)   # edges on which `ne` answered true
+            if not differ:
+                continue
+            starts = {x for (_, x) in differ}
+            w = None
+            for s0 in starts:
+                w = w or body.path(s0, oks, blocked=rej, succ=lambda x: [y for y in body.succs(x) if not body.blocks[y]["cleanup"]])
+            if w:
+                res.bad(Finding("T8", f["id"], "type difference at line %d can end in acceptance" % t["sp"][1],
+                                "after `!=` found the two types to differ, a path reaches the accepting exit without constructing a type error and without calling a checker that can reject "
+                                "(check_type, unify, check_or_constrain_*, expect_*); constrain_type alone never rejects non-numeric types (blocks %s)" % w[:10], t["sp"]))
+            else:
+                res.ok({"function": mir.last_seg(f["id"]), "line": t["sp"][1], "verdict": "differing types lead to an error or a rejecting checker"})
+    if n < 4 and not res.findings:
+        raise AnchorMissing("T8: expected the `!=` comparisons of types in the type_check functions (5 on the pinned tree), found %d" % n)
+    return res
+
+
+def rule_t9(ctx):
+    """A const definition may only mention consts defined before it (the compiler resolves them in source order)."""
+    res = RuleResult("T9", "const expressions are checked against the consts defined so far, not against all consts of the program")
+    prog = ctx.find_fn("type_check", "&ast::Program<()>", "check.rs")
+    body = ctx.body(prog["id"])
+    calls = [(b, t) for b, t in body.calls() if mir.last_seg(mir.callee(t) or "") == "check_const_expr"]
+    if len(calls) != 1:
+        raise AnchorMissing("T9: expected one call of check_const_expr in the program checker, found %d" % len(calls))
+    cb, ct = calls[0]
+    maps = [a for a in ct["args"] if a["k"] in ("copy", "move") and "HashMap<std::string::String, ast::ConstDef>" in a["place"]["ty"]]
+    if len(maps) != 1:
+        raise AnchorMissing("T9: check_const_expr no longer takes one map of const definitions")
+    src = body.trace_operand(maps[0])
+    if any(r == SELF1 for (r, p) in src):
+        res.bad(Finding("T9", prog["id"], "const expressions are checked against every const of the program",
+                        "check_const_expr is given the program's complete definition map: forward references, cycles and self references are accepted, "
+                        "but the compiler resolves const definitions in source order and panics on them", ct["sp"]))
+        return res
+    loops = [lp for lp in body.loops() if cb in lp["body"]]
+    if not loops or not all(r[0] == "call" and mir.last_seg(r[2] or "") in ("new", "with_capacity") for (r, p) in src):
+        raise AnchorMissing("T9: cannot see where the map of visible consts comes from (%s)" % sorted(src)[:2])
+    lp = min(loops, key=lambda l: len(l["body"]))
+    ins = [b for b, t in body.calls() if b in lp["body"] and mir.last_seg(mir.callee(t) or "") == "insert" and
+           {(r, tuple(p)) for (r, p) in body.trace_operand(t["args"][0])} == {(r, tuple(p)) for (r, p) in src}]
+    before = [b for b in ins if body.path(lp["header"], [cb], blocked=set(), succ=lambda x: [y for y in body.succs(x) if y in lp["body"]]) and body.dominates(b, cb)]
+    after = [b for b in ins if body.path(cb, [b], succ=lambda x: [y for y in body.succs(x) if y in lp["body"] and y != lp["header"]])]
+    if after and not before:
+        res.ok({"verdict": "visible consts = a local map that receives each definition after it was checked (source order)"})
+    else:
+        res.bad(Finding("T9", prog["id"], "a const definition is visible while it is being checked", "the definition is entered into the map of visible consts before (or never after) its own expression is checked", ct["sp"]))
+    return res
+
+
 def run(ctx):
-    return ctx.run_rules([rule_t1, rule_t2, rule_t3, rule_t4, rule_t5, rule_t6, rule_t7])
+    return ctx.run_rules([rule_t1, rule_t2, rule_t3, rule_t4, rule_t5, rule_t6, rule_t7, rule_t8, rule_t9])
